@@ -18,7 +18,8 @@ _calc = {}
 
 
 def setup_key(setup):
-    return canon([setup["recipe"]["lattice"], setup["recipe"]["basis"], setup["chem"], setup["k"], setup.get("closest", 0), setup["Nthermo"]])
+    return canon([setup["recipe"]["lattice"], setup["recipe"]["basis"], setup["chem"], setup["k"], setup.get("closest", 0), setup["Nthermo"]] +
+                 (["slperm"] if setup.get("slperm") else []))
 
 
 def calculator(setup, fresh=False, NGFmax=4):
@@ -28,6 +29,9 @@ def calculator(setup, fresh=False, NGFmax=4):
     if fresh or key not in _calc:
         crys = cs.build(setup["recipe"])
         sl, jn, cut = nw.network(crys, setup["chem"], setup["k"], setup.get("closest", 0))
+        if setup.get("slperm"):
+            # the caller lists the Wyckoff sets (and their members) in its own order: the constructor takes any sitelist
+            sl = [list(reversed(w)) for w in reversed(sl)]
         calc = OnsagerCalc.VacancyMediated(crys, setup["chem"], sl, jn, setup["Nthermo"], NGFmax=NGFmax)
         if fresh:
             return crys, sl, jn, calc
